@@ -594,7 +594,11 @@ def gen_history(rng, length, model_only, depth):
             else:
                 blocks.append([['parse', pid, '']])
             continue
-        blocks.append([['parse', pid, f]])
+        if not model_only and f.startswith('A1') and rng.random() < 0.7:
+            # an evaluation aborted after it has read A1, and the host's edit of A1, with no complete evaluation between them
+            blocks.append([['parse', pid, f], ['cell', pid, 'A1', rng.choice([5, 'edited', 71, 6, 0])]])
+        else:
+            blocks.append([['parse', pid, f]])
     return blocks
 
 
@@ -714,8 +718,9 @@ def cases(rng, ctx):
     # a fixed history: an evaluation aborted after it has read A1, the host edits A1, the same reference is evaluated again
     setup = [['new', False]] + [[r[0], 0] + r[1:] for r in std_regs(False)]
     out.append({'kind': 'history', 'model': False, 'probes': ['A1&"x"', 'A1+1', 'SUM(A1:B2)'],
-                'blocks': [setup, [['parse', 0, 'A1+badvar']], [['cell', 0, 'A1', 5]], [['parse', 0, 'A1+#REF!']], [['cell', 0, 'A1', 'edited']],
-                           [['parse', 0, 'SUM(A1:B2))']], [['cell', 0, 'A1', 71]]]})
+                # (abort and edit in ONE block: no evaluation runs to its end between them)
+                'blocks': [setup, [['parse', 0, 'A1+badvar'], ['cell', 0, 'A1', 5]], [['parse', 0, 'A1+#REF!'], ['cell', 0, 'A1', 'edited']],
+                           [['parse', 0, 'A1*2+BADFN()'], ['cell', 0, 'A1', 71]], [['parse', 0, 'A1+('], ['cell', 0, 'A1', 6]]]})
     # (b) debug
     forms = VALID_MODEL + VALID_WILD + ERRONEOUS + RAISING_WILD + WILD_PROBES
     if not thorough:
